@@ -384,8 +384,8 @@ pub fn execute(ctx: &Ctx, scv: &serde_json::Value, rd: &RunDir, stats: &mut Stat
         sc.argv,
         sc.sim_now,
         base.status_str(),
-        norm(ctx, &short(&base.out_str(), 1500)),
-        norm(ctx, &short(&base.err_str(), 300))
+        short(&norm(ctx, &base.out_str()), 1500),
+        short(&norm(ctx, &base.err_str()), 300)
     ));
     if base.err_str().contains("panicked at") || matches!(base.status, crate::proc::Status::Signal(_)) {
         // a crash belongs to C13; here it would only blur the comparison
@@ -398,7 +398,7 @@ pub fn execute(ctx: &Ctx, scv: &serde_json::Value, rd: &RunDir, stats: &mut Stat
     for (pi, p) in sc.perturbs.iter().enumerate() {
         let o = run_zerv(ctx, rd, &ex.call(&sc.argv, p, sc.sim_now), stats);
         stats.bump("executions");
-        stats.event(format!("perturb {pi} {} tz={:?} lang={:?} lc_all={:?} cwd={} noise={} -> {} out={}", p.label, p.tz, p.lang, p.lc_all, p.cwd, p.noise.len(), o.status_str(), norm(ctx, &short(&o.out_str(), 300))));
+        stats.event(format!("perturb {pi} {} tz={:?} lang={:?} lc_all={:?} cwd={} noise={} -> {} out={}", p.label, p.tz, p.lang, p.lc_all, p.cwd, p.noise.len(), o.status_str(), short(&norm(ctx, &o.out_str()), 300)));
         // effectiveness of the perturbation (for the distinct count)
         let mut kinds: Vec<String> = vec![];
         if let Some(tz) = &p.tz {
@@ -475,7 +475,7 @@ pub fn execute(ctx: &Ctx, scv: &serde_json::Value, rd: &RunDir, stats: &mut Stat
     let dirty = model_dirty || has_arg(&sc.argv, "--dirty");
     let tag_mode_possible = arg_val(&sc.argv, "--post-mode") != Some("commit");
     let clock_may_show = dirty || tmpl.contains("current_timestamp") || (is_flow && model_dist > 0 && tag_mode_possible);
-    stats.event(format!("instant2 now={now2} may_show={clock_may_show} -> {} out={}", o2.status_str(), norm(ctx, &short(&o2.out_str(), 300))));
+    stats.event(format!("instant2 now={now2} may_show={clock_may_show} -> {} out={}", o2.status_str(), short(&norm(ctx, &o2.out_str()), 300)));
     if clock_may_show {
         stats.bump("clock_dependent_state");
         if !same(&base, &o2) {
